@@ -76,6 +76,11 @@ func newPhiWalker(ctx *promotionContext) *phiWalker {
 		currentValue: make(map[uint32]ir.ExpressionHandle),
 		candidates:   selectStructuredCandidates(ctx),
 	}
+	// A variable stored inside a loop keeps its alloca (no loop phis yet). It
+	// has to leave the candidate set BEFORE the rename walk starts: the walk
+	// drops the stores of candidates as it meets them, and a store dropped in
+	// front of the loop cannot be brought back when the loop is reached.
+	excludeLoopStored(&ctx.localPtrs, w.candidates, []ir.Statement(ctx.fn.Body))
 	// Seed initial values from each candidate's Init or a fresh ZeroValue.
 	for v := range w.candidates {
 		w.currentValue[v] = initialValueOf(ctx, v)
@@ -357,14 +362,10 @@ func (w *phiWalker) handleSwitch(stmtPtr *ir.Statement) []ir.Statement {
 func (w *phiWalker) handleLoop(stmtPtr *ir.Statement) []ir.Statement {
 	sk := stmtPtr.Kind.(ir.StmtLoop)
 
-	// Disqualify candidates whose value escapes through the loop
-	// back-edge (i.e., are stored anywhere inside the body or
-	// continuing). They keep their alloca lowering for now.
-	storedInLoop := collectLoopStores(&w.ctx.localPtrs, w.candidates, sk)
-	for v := range storedInLoop {
-		delete(w.candidates, v)
-		delete(w.currentValue, v)
-	}
+	// Candidates whose value escapes through the loop back-edge (stored
+	// anywhere inside the body or continuing) keep their alloca lowering;
+	// newPhiWalker has removed them from the candidate set before the walk
+	// (see excludeLoopStored), so nothing is withdrawn here.
 
 	body := []ir.Statement(sk.Body)
 	w.walkBlock(&body)
@@ -376,6 +377,29 @@ func (w *phiWalker) handleLoop(stmtPtr *ir.Statement) []ir.Statement {
 		BreakIf:    sk.BreakIf,
 	}
 	return nil
+}
+
+// excludeLoopStored removes from candidates every variable that is stored
+// inside a loop anywhere in block.
+func excludeLoopStored(ptrs *localPtr, candidates map[uint32]struct{}, block []ir.Statement) {
+	for i := range block {
+		switch sk := block[i].Kind.(type) {
+		case ir.StmtLoop:
+			stored := collectLoopStores(ptrs, candidates, sk)
+			for v := range stored {
+				delete(candidates, v)
+			}
+		case ir.StmtBlock:
+			excludeLoopStored(ptrs, candidates, []ir.Statement(sk.Block))
+		case ir.StmtIf:
+			excludeLoopStored(ptrs, candidates, []ir.Statement(sk.Accept))
+			excludeLoopStored(ptrs, candidates, []ir.Statement(sk.Reject))
+		case ir.StmtSwitch:
+			for ci := range sk.Cases {
+				excludeLoopStored(ptrs, candidates, []ir.Statement(sk.Cases[ci].Body))
+			}
+		}
+	}
 }
 
 // collectLoopStores returns the set of candidate variables that have
